@@ -226,11 +226,11 @@ Definition t := Gen.%(mod)s.tables.
 Definition v : str := %(v)s.
 Definition lvl_of (n : nat) : level := match n with 1%%nat => STRICT | _ => TOLERANT end.
 (* one case: level, delimiters, precomputed Segment object (or None), text, expected code / encoding / dump *)
-Definition obs (l : nat) (e : ec) (s0 : option (result seg)) (text : str) : nat * str * str :=
+Definition obs (l : nat) (e : ec) (s0 : option (result seg)) (rf : option sref) (text : str) : nat * str * str :=
   let r := match s0 with
            | Some (Ok s) => parse_segment_in t (lvl_of l) e (leaf_enc v (lvl_of l) e) s text
            | Some (Err x) => Err x
-           | None => parse_segment t (lvl_of l) e (leaf_enc v (lvl_of l) e) text None
+           | None => parse_segment t (lvl_of l) e (leaf_enc v (lvl_of l) e) text rf
            end in
   match r with
   | Err x => (exn_code x, [], [])
@@ -240,15 +240,15 @@ Definition obs (l : nat) (e : ec) (s0 : option (result seg)) (text : str) : nat 
             end
   end.
 Definition case := (nat * ec * str * nat * str * str)%%type.
-Definition agrees (s0 : option (result seg)) (c : case) : bool :=
+Definition agrees (s0 : option (result seg)) (rf : option sref) (c : case) : bool :=
   match c with (l, e, text, code, enc, dmp) =>
-    match obs l e s0 text with (code', enc', dmp') =>
+    match obs l e s0 rf text with (code', enc', dmp') =>
       Nat.eqb code code' && streqb enc enc' && streqb dmp dmp' end end.
 (* a group = the cases that share one Segment object: it is built once (call by value) *)
-Definition run_group (g : bool * str * list case) : list bool :=
-  match g with (pre, name, cs) =>
-    let s0 := if pre then Some (mk_segment t name None) else None in
-    map (agrees s0) cs end.
+Definition run_group (g : bool * str * option sref * list case) : list bool :=
+  match g with (pre, name, rf, cs) =>
+    let s0 := if pre then Some (mk_segment t name rf) else None in
+    map (agrees s0 rf) cs end.
 Fixpoint failing (n : nat) (l : list bool) : list nat :=
   match l with [] => [] | b :: r => (if b then [] else [n]) ++ failing (S n) r end.
 '''
@@ -275,7 +275,7 @@ def run_model(run, cases, tag, precompute=True, per_file=400):
             order = []
             for c in sh:
                 pre = bool(precompute and c.get('precompute', True))
-                key = (pre, c['text'][:3])
+                key = (pre, c['text'][:3], c.get('ref_term'))
                 if key not in groups:
                     groups[key] = []
                     order.append(key)
@@ -289,9 +289,10 @@ def run_model(run, cases, tag, precompute=True, per_file=400):
                     rows.append('(%d%%nat, %s, %s, %d%%nat, %s, %s)' % (
                         c['lvl'], ec_term(c['ec']), coq_str(c['text']), c['code'], coq_str(c['enc']),
                         coq_str(c['dump'])))
-                gtxt.append('(%s, %s, [\n%s])' % ('true' if key[0] else 'false', coq_str(key[1]), ';\n'.join(rows)))
+                gtxt.append('(%s, %s, %s, [\n%s])' % ('true' if key[0] else 'false', coq_str(key[1]),
+                                                   '(Some %s)' % key[2] if key[2] else 'None', ';\n'.join(rows)))
             sh = flat
-            L.append('Definition groups : list (bool * str * list case) := [\n' + ';\n'.join(gtxt) + '\n].')
+            L.append('Definition groups : list (bool * str * option sref * list case) := [\n' + ';\n'.join(gtxt) + '\n].')
             L.append('Eval vm_compute in failing 0 (flat_map run_group groups).')
             files.append(('%s_%d_%s_%d' % (tag, os.getpid(), v.replace('.', '_'), k), '\n'.join(L) + '\n'))
             index.append(sh)
@@ -310,8 +311,16 @@ def run_model(run, cases, tag, precompute=True, per_file=400):
     return evaluated
 
 
-def case_of(text, v, lvl, ec, **kw):
-    code, enc, dmp, obj = impl_obs(text, v, lvl, ec)
+def sref_term(lib, ref):
+    """Coq term (type sref) of a Python reference, by name where it equals the table entry."""
+    import re
+    import gen_tables
+    t = gen_tables.Ser(lib).ref(ref)
+    return re.sub(r's"([^"]*)"', r'(unbs "\1")', t)
+
+
+def case_of(text, v, lvl, ec, reference=None, **kw):
+    code, enc, dmp, obj = impl_obs(text, v, lvl, ec, reference)
     c = {'v': v, 'lvl': lvl, 'ec': ec, 'text': text, 'code': code, 'enc': enc, 'dump': dmp, 'obj': obj}
     c.update(kw)
     return c
